@@ -90,7 +90,14 @@ PSF = 'py_stringsimjoin.filter.position_filter.PositionFilter.'
 POSITION_CORE = [PSI + '__init__', PSI + 'build', PSF + '__init__', PSF + 'find_candidates']
 POSITION_TABLES = ['py_stringsimjoin.filter.position_filter._filter_tables_split', PSF + 'filter_tables']
 POSITION_PAIR = [PSF + 'filter_pair']
-POSITION_PAIR_SAFE = [dict(fn=PSF + 'filter_pair', case=m_) for m_ in ('JACCARD', 'COSINE', 'DICE')]   # bounded half (C04)
+# PositionFilter.filter_pair's safe half is PROVED for the set measures since round 5 (contracts/position_pair.py);
+# the EDIT_DISTANCE / OVERLAP modes of the pair-level filters have no contract: bounded stand-ins (C04)
+PAIR_INT_MODES = [dict(fn=f_ + 'filter_pair', case=m_) for f_ in (PSF, 'py_stringsimjoin.filter.prefix_filter.PrefixFilter.')
+                  for m_ in ('EDIT_DISTANCE', 'OVERLAP')]
+LEMMA_PB = ('two further facts of pure mathematics (proved in Lean, lemmas/Lemmas.lean: prefix_match_count_pos, position_bound; '
+            'statement correspondence trusted) are used for the safe half of PositionFilter.filter_pair: a common element of the two '
+            'prefixes makes the prefix-match count positive, and for strictly sorted X, Y with Y[i] = X[j] inside the left prefix '
+            '|X n Y| <= matches before i + 1 + min(|X| - j - 1, |Y| - i - 1)')
 PREFIX_TABLES = ['py_stringsimjoin.filter.prefix_filter._filter_tables_split', PXF + 'filter_tables']
 PREFIX_PAIR = [TO_ + 'gen_token_ordering_for_lists', PXF + 'filter_pair']
 TO = 'py_stringsimjoin.utils.token_ordering.'
@@ -107,12 +114,15 @@ PROPS['C02'] = dict(functions=[SSJ] + HELPERS + JOINS + OVERLAP_CORE + OVERLAP_A
 PROPS['C03'] = dict(functions=ED + PREFIX_CORE + ARITH[2:3] + HELPERS + ORDERING + PAR, trusted=[PSM, PANDAS, JOBLIB, LEMMA_ED])
 PROPS['C04'] = dict(functions=ARITH + SIZE_CORE + SIZE_API + OVERLAP_CORE + OVERLAP_API[:2] + CANDSET + PREFIX_CORE + PREFIX_TABLES +
                     PREFIX_PAIR + POSITION_CORE + POSITION_TABLES + POSITION_PAIR + ORDERING + PAR,
-                    trusted=[PSM, PANDAS, LEMMA_CNT, LEMMA_INJ, LEMMA_PP, JOBLIB, ANYF], bounded_extra=POSITION_PAIR_SAFE)
+                    trusted=[PSM, PANDAS, LEMMA_CNT, LEMMA_INJ, LEMMA_PP, LEMMA_PB, JOBLIB, ANYF], bounded_extra=PAIR_INT_MODES)
 PROPS['C05'] = dict(functions=MATCHER + [GH + 'build_dict_from_table', GH + 'find_output_attribute_indices',
                                          GH + 'get_output_row_from_tables', GH + 'get_output_header_from_tables',
                                          GH + 'get_attrs_to_project', GH + 'remove_redundant_attrs'] + PAR,
                     trusted=[PANDAS, PSM, JOBLIB, GENTOK, SIMF])
-PROPS['C06'] = dict(functions=CANDSET + OVERLAP_CORE + OVERLAP_API[:2] + PAR + SIZE_API[:1] + PREFIX_PAIR[1:] + POSITION_PAIR, trusted=[PSM, PANDAS, LEMMA_CNT, JOBLIB, ANYF])
+PROPS['C06'] = dict(functions=CANDSET + OVERLAP_CORE + OVERLAP_API[:2] + PAR + SIZE_API[:1] + PREFIX_PAIR[1:] + POSITION_PAIR, trusted=[PSM, PANDAS, LEMMA_CNT, JOBLIB, ANYF],
+                    # conformance run of the executable contract of filter_candset on the real code in the quick tier too: it
+                    # exercises what the ASSUMED pandas abstraction cannot see (dtype coercion of numeric-only candidate sets)
+                    bounded_extra=[dict(fn=CANDSET[-1], case='default')])
 PROPS['C09'] = dict(functions=[SSJ] + JOINS + OVERLAP_CORE + OVERLAP_API[:1] + SIZE_CORE + SIZE_API + OVC + PREFIX_CORE[:2] + PREFIX_TABLES + PREFIX_PAIR[1:] + POSITION_PAIR +
                     POSITION_CORE[:2] + POSITION_TABLES, trusted=[PSM, PANDAS, LEMMA_INJ, LEMMA_PP])
 PROPS['C11'] = dict(functions=HELPERS + [SSJ, MVH] + JOINS + OVERLAP_CORE[-1:] + OVERLAP_API[1:] + SIZE_CORE[-1:] + SIZE_API[1:] + OVC + ED +
@@ -130,6 +140,10 @@ PROPS['C14'] = dict(functions=ARITH[:2] + SIZE_CORE + SIZE_API + OVERLAP_CORE + 
                     POSITION_CORE + POSITION_TABLES + ORDERING,
                     trusted=[PSM, PANDAS, LEMMA_CNT, LEMMA_INJ, LEMMA_PP, JOBLIB],
                     bounded_extra=[dict(fn='spec.size_window_tightness', case=c_) for c_ in
-                                   ('JACCARD', 'COSINE', 'DICE', 'COSINE-right-empty')])
+                                   ('JACCARD', 'COSINE', 'DICE', 'COSINE-right-empty')] +
+                                  # Position <= Prefix and Position <= Size on the same tables, real code against real code
+                                  # (the EDIT_DISTANCE / OVERLAP modes of the filter classes have no contract)
+                                  [dict(fn='spec.position_refines_prefix_and_size', case=c_) for c_ in
+                                   ('JACCARD', 'COSINE', 'EDIT_DISTANCE', 'OVERLAP')])
 PROPS['C15'] = dict(functions=VALIDATORS + JOINS + [OVF + '__init__', SZF + '__init__', PXF + '__init__', PSF + '__init__'] + OVERLAP_API[1:] +
                     SIZE_API[1:] + CANDSET[-1:] + MATCHER[-1:] + OVC[1:] + ED[1:] + PREFIX_TABLES[1:] + POSITION_TABLES[1:], trusted=[PANDAS])
